@@ -742,7 +742,8 @@ class TorchCalls(TorchOps):
     def list_method(self, lst: ListV, name, args, kwargs, node, env):
         I = self.interp
         if name == "append":
-            if lst.items is not None and I.join_depth == 0:
+            if lst.items is not None and (I.join_depth == 0 or (lst.born is not None and lst.born == tuple(I.open_lids))):
+                # (a list created by a display in this very iteration of the enclosing summarised loops grows element by element)
                 new = replace(lst, items=lst.items + (args[0],))
             else:
                 e = lst.elem if lst.items is None else self.set_elem(SetV(items=lst.items))
